@@ -138,14 +138,26 @@ def gen_suppressions(rng, feedbacks):
         if isinstance(s.get('category'), str) and s['category'] in ('Runtime', 'SYNTAX'):
             pass
         sups.append(s)
+    with_cat = [f for f in feedbacks if f['kw'].get('label') and f['kw'].get('category')]
+    if with_cat and rng.random() < 0.2:
+        # the same category and label suppressed twice: first only for some fields, then altogether (or the other way round)
+        f = rng.choice(with_cat)
+        narrow = {'category': f['kw']['category'], 'label': f['kw']['label'], 'fields': {'never_given': 1}}
+        blanket = {'category': f['kw']['category'], 'label': f['kw']['label']}
+        sups.extend([narrow, blanket] if rng.random() < 0.7 else [blanket, narrow])
     return sups
 
 
 def gen_spec(rng, score_probe=False, max_n=8):
     n = rng.choice([0, 1, 1, 2, 2, 3, 3, 4, 5, 6, max_n])
     fbs = [gen_feedback(rng, i, score_probe) for i in range(n)]
-    return {'feedbacks': fbs, 'suppressions': gen_suppressions(rng, fbs),
+    spec = {'feedbacks': fbs, 'suppressions': gen_suppressions(rng, fbs),
             'sup_first': rng.random() < 0.5, 'main_report': rng.random() < 0.3}
+    if fbs and rng.random() < 0.12:
+        # the assignment has variants ("pools"): for the one that is chosen, feedback is re-worded, re-ranked or muted
+        spec['pool'] = {'names': ['A'], 'overrides': [{'priority': rng.choice(PRIORITIES[1:] or ['low'])} if rng.random() < 0.6 else
+                                                      rng.choice([{'category': rng.choice([c for c in CATEGORIES if c])}, {'muted': True}, {'title': 'Variant title'}])]}
+    return spec
 
 
 def build(spec, order=None, first=None):
@@ -190,6 +202,11 @@ def build(spec, order=None, first=None):
             commands.suppress(report=report, **kw)
     if spec.get('sup_first'):
         do_sup()
+    Feedback._pools.clear()
+    if spec.get('pool'):
+        report.set_pools(list(spec['pool']['names']))
+        for fields in spec['pool']['overrides']:
+            Feedback.override_for_pool(spec['pool']['names'][0], **fields)
     objs = []
     idxs = list(range(len(spec['feedbacks']))) if order is None else order
 
